@@ -19,3 +19,18 @@ class Cls:
     def imeth(self, t=0):
       return ('imeth', self.q, t)
 
+
+
+class _Shape:
+  """Not reachable by name (underscore): its method is reached through the subclass only."""
+
+  def area(self, scale=0):
+    return ('area', self.side, scale)
+
+
+class Square(_Shape):
+  def __init__(self, side=0):
+    self.side = side
+
+  def perimeter(self, unit=0):
+    return ('perimeter', self.side, unit)
